@@ -385,3 +385,99 @@ func (v *SimVFS) ReadDirNames(dir string) ([]string, error) {
 }
 
 var _ io.Writer = (*vwritable)(nil)
+
+// ---------------------------------------------------------------------------
+// RecVFS: the contract the crash model assumes of a files.VFS, asserted on the
+// real one. The crash images of the files store are built over SimVFS, where
+// "what a Sync covers" is exact by construction; the store that runs in
+// production stands on osfs.go. RecVFS sits between the files store and
+// that implementation and fails the call when
+//   - Sync returns while bytes written before it are not in the file yet
+//     (an fsync can only cover what has reached the file),
+//   - Close leaves written bytes out of the file,
+//   - Rename returns while the new name is missing or the old one still there,
+//   - MkdirAll returns while the directory is missing.
+//
+// The error names the broken clause; every engine reports a receive that fails
+// without an injected fault.
+type RecVFS struct {
+	Inner files.VFS
+}
+
+func (v *RecVFS) Remove(p string) error                     { return v.Inner.Remove(p) }
+func (v *RecVFS) RemoveDir(p string) error                  { return v.Inner.RemoveDir(p) }
+func (v *RecVFS) Stat(p string) (os.FileInfo, error)        { return v.Inner.Stat(p) }
+func (v *RecVFS) Lstat(p string) (os.FileInfo, error)       { return v.Inner.Lstat(p) }
+func (v *RecVFS) Open(p string) (files.ReadableFile, error) { return v.Inner.Open(p) }
+func (v *RecVFS) ReadDirNames(d string) ([]string, error)   { return v.Inner.ReadDirNames(d) }
+
+func (v *RecVFS) MkdirAll(p string, perm os.FileMode) error {
+	if err := v.Inner.MkdirAll(p, perm); err != nil {
+		return err
+	}
+	if fi, err := os.Stat(p); err != nil || !fi.IsDir() {
+		return fmt.Errorf("host VFS contract: MkdirAll(%q) returned success but the directory is not there (%v)", p, err)
+	}
+	return nil
+}
+
+func (v *RecVFS) Rename(oldname, newname string) error {
+	if err := v.Inner.Rename(oldname, newname); err != nil {
+		return err
+	}
+	if _, err := os.Lstat(newname); err != nil {
+		return fmt.Errorf("host VFS contract: Rename(%q, %q) returned success but the new name is missing: %v", oldname, newname, err)
+	}
+	if _, err := os.Lstat(oldname); err == nil && oldname != newname {
+		return fmt.Errorf("host VFS contract: Rename(%q, %q) returned success but the old name is still there", oldname, newname)
+	}
+	return nil
+}
+
+type recWritable struct {
+	files.WritableFile
+	written int64
+}
+
+func (w *recWritable) Write(p []byte) (int, error) {
+	n, err := w.WritableFile.Write(p)
+	w.written += int64(n)
+	return n, err
+}
+
+func (w *recWritable) inFile() (int64, error) {
+	fi, err := os.Stat(w.Name())
+	if err != nil {
+		return 0, err
+	}
+	return fi.Size(), nil
+}
+
+func (w *recWritable) Sync() error {
+	if err := w.WritableFile.Sync(); err != nil {
+		return err
+	}
+	if n, err := w.inFile(); err != nil || n != w.written {
+		return fmt.Errorf("host VFS contract: Sync of %q returned with %d of the %d bytes written so far in the file (%v): the fsync cannot have covered the rest, a power loss after the acknowledgement tears the blob", w.Name(), n, w.written, err)
+	}
+	return nil
+}
+
+func (w *recWritable) Close() error {
+	name := w.Name()
+	if err := w.WritableFile.Close(); err != nil {
+		return err
+	}
+	if fi, err := os.Stat(name); err == nil && fi.Size() != w.written {
+		return fmt.Errorf("host VFS contract: Close of %q left %d of the %d bytes written in the file", name, fi.Size(), w.written)
+	}
+	return nil
+}
+
+func (v *RecVFS) TempFile(dir, prefix string) (files.WritableFile, error) {
+	f, err := v.Inner.TempFile(dir, prefix)
+	if err != nil {
+		return nil, err
+	}
+	return &recWritable{WritableFile: f}, nil
+}
